@@ -5,6 +5,10 @@
 // specification predicates, used as runtime oracles by replays.
 package codec
 
+import "github.com/resgateio/resgate/server/reserr"
+
+var _ = reserr.ErrNotFound
+
 //@ define predTokChar(b byte) bool = 33 <= b && b <= 126 && b != '.' && b != '*' && b != '>' && b != '?'
 
 //@ define predValidPart(s string) bool = len(s) > 0 && (forall k int :: 0 <= k && k < len(s) ==> predTokChar(s[k]))
@@ -59,6 +63,19 @@ package codec
 //@   ensures result == ufBool_valeq(v, w)
 //@   ensures v.Type != w.Type ==> !result
 //@   assigns nothing
+
+// A get response is accepted only with exactly one of model and collection, all values proper.
+//@ func DecodeGetResponse
+//@   assigns nothing
+//@   ensures[C15] result1 != nil ==> result0 == nil && reserr.predErrOK(result1)
+//@   ensures[C15,C01] result1 == nil ==> result0 != nil && (result0.Model != nil) != (result0.Collection != nil) &&
+//@       (forall k string :: has(result0.Model, k) ==> result0.Model[k].Type >= ValueTypePrimitive) &&
+//@       (forall i int :: 0 <= i && i < len(result0.Collection) ==> result0.Collection[i].Type >= ValueTypePrimitive)
+//@   safety[C15]
+//@   loop 1 invariant res != nil && res == r.Result && res.Model != nil && res.Collection == nil && r.Error == nil
+//@   loop 1 invariant forall k string :: visited1[k] && has(res.Model, k) ==> res.Model[k].Type >= ValueTypePrimitive
+//@   loop 2 invariant res != nil && res == r.Result && res.Model == nil && res.Collection != nil && r.Error == nil
+//@   loop 2 invariant forall i int :: 0 <= i && i < rangeidx2 ==> res.Collection[i].Type >= ValueTypePrimitive
 
 //@ func EncodeChangeEvent
 //@   assigns nothing
